@@ -122,10 +122,15 @@ def random_exc(r, honest=True, maxr=MAXR):
 
 
 # ------------------------------------------------------------------ exe: whole exchanges
-def exe_line(kind, reqs, fates, seed=12345, cmid0=100, smid0=-1, adelay=300, dflt=3, nstart=0, method=1):
+# initial tx_token values: the first token is tok0 + 1.  -1: zero-length token first, then 1 byte;
+# 254: 1 byte then 2 bytes; 2^56 - 2: 7 bytes then 8 bytes
+TOK0S = [0, -1, 254, 72057594037927934]
+
+
+def exe_line(kind, reqs, fates, seed=12345, cmid0=100, smid0=-1, adelay=300, dflt=3, nstart=0, method=1, tok0=0):
     q = " ".join("%d:%d:%d" % (s, ok, th) for (s, ok, th) in reqs)
-    return "exe K %s P %d M %d %d A %d E %d N %d H %d Q %s F %s" % (
-        kind, seed, cmid0, smid0, adelay, dflt, nstart, method, q, " ".join(fates))
+    return "exe K %s P %d M %d %d T %d A %d E %d N %d H %d Q %s F %s" % (
+        kind, seed, cmid0, smid0, tok0, adelay, dflt, nstart, method, q, " ".join(fates))
 
 
 def exhaustive_fates(n, dup_delay):
